@@ -2158,11 +2158,16 @@ func TestCheck(t *testing.T) {
 	r.Require("realgeo_distinct_countries_in_mapped_options", 3)
 	r.Require("realgeo_distinct_countries", 10)
 	r.Require("refresh_race_refreshes", 100)
-	r.Require("listener_cases", 300)
-	r.Require("listener_cases_malformed", 40)
-	r.Require("listener_cases_unparseable", 40)
-	r.Require("listener_cases_valid_or_zero", 60)
+	r.Require("listener_cases", 400)
+	r.Require("listener_cases_malformed", 60)
+	r.Require("listener_cases_unparseable", 60)
+	r.Require("listener_cases_valid_or_zero", 120)
 	r.Require("listener_transports", 8)
+	for _, tr := range []string{"udp", "tcp", "dot", "doh-h2-post", "doh-h1-get", "doq", "dnscrypt-udp", "dnscrypt-tcp"} {
+		// decided (= a DNS message was received) malformed cases per transport;
+		// a run in which too many stayed ambiguous is inconclusive
+		r.Require("listener_malformed_decided:"+tr, 6)
+	}
 	r.Require("refresh_race_reader_calls_during_refresh", 2000)
 	r.Require("refresh_race_probes_location_changed_by_refresh", 1000)
 }
